@@ -15,9 +15,15 @@ theorem token_decl (fx : Facts) (hg : Good fx) (it : Item) (h : it.isStmt = fals
   have ht := hg.tokType
   cases it <;> simp_all [Item.isStmt, Item.token]
 
-theorem token_stmt (fx : Facts) (hg : Good fx) (it : Item) (h : it.isStmt = true) : fx.declTokens.contains it.token = false := by
+/-- a statement starts with a token that is no declaration — or with `func`, when it is the call of
+    a function literal -/
+theorem token_stmt (fx : Facts) (hg : Good fx) (it : Item) (h : it.isStmt = true) :
+    fx.declTokens.contains it.token = false ∨ it.token = "func" := by
   have ho := hg.tokOther
-  cases it <;> simp_all [Item.isStmt, Item.token]
+  cases it with
+  | stmt s => cases s <;> simp_all [Item.token]
+  | define x e => left; simpa [Item.token] using ho
+  | _ => simp [Item.isStmt] at h
 
 theorem evalText_decl (fx : Facts) (hg : Good fx) (fuel : Nat) (s : State) (it : Item) (tl : List Item)
     (h : (it :: tl).all (fun i => !i.isStmt) = true) : evalText fx fuel s (it :: tl) = evalChunk fx fuel .file s (it :: tl) := by
@@ -25,6 +31,8 @@ theorem evalText_decl (fx : Facts) (hg : Good fx) (fuel : Nat) (s : State) (it :
   unfold evalText
   simp only [token_decl fx hg it h0, if_true, h]
 
+/-- a text of statements is compiled as the body of main — directly, or, when it starts with a
+    function literal, at the second attempt of the incremental parser -/
 theorem evalText_stmt (fx : Facts) (hg : Good fx) (fuel : Nat) (s : State) (it : Item) (tl : List Item)
     (h : (it :: tl).all (·.isStmt) = true) : evalText fx fuel s (it :: tl) = evalChunk fx fuel .block s (it :: tl) := by
   have h0 : it.isStmt = true := (List.all_eq_true.mp h) it (List.mem_cons_self ..)
@@ -33,8 +41,18 @@ theorem evalText_stmt (fx : Facts) (hg : Good fx) (fuel : Nat) (s : State) (it :
     intro i hi
     have := h i hi
     cases i <;> simp_all [Item.isStmt, Item.isFuncDecl]
+  have hnd : (it :: tl).all (fun i => !i.isStmt) = false := by
+    simp [List.all_cons, h0]
   unfold evalText
-  simp only [token_stmt fx hg it h0, Bool.false_eq_true, if_false, hg.wrap, if_true, hnf]
+  cases hc : fx.declTokens.contains it.token with
+  | false => simp only [hc, Bool.false_eq_true, if_false, hg.wrap, if_true, hnf]
+  | true =>
+    have htok : it.token = "func" := by
+      rcases token_stmt fx hg it h0 with h1 | h1
+      · rw [hc] at h1; cases h1
+      · exact h1
+    simp only [if_true, hnd, Bool.false_eq_true, if_false, htok, hg.retry, hg.firstErr, hnf, decide_true, Bool.and_self,
+      hg.tokFunc]
 
 theorem homogeneous_cases (it : Item) (tl : List Item) (h : homogeneous (it :: tl) = true) :
     (it :: tl).all (fun i => !i.isStmt) = true ∨ (it :: tl).all (·.isStmt) = true := by
